@@ -79,7 +79,7 @@ class ResultField:
         elif axis not in axes:
             msg = f"invalid key: {axis}"
             raise ValueError(msg)
-        data = np.swapaxes(data, axes.index(axis), 0)
+        data = np.moveaxis(data, axes.index(axis), 0)
         if names is None:
             names = {}
         axis_names = names.get(axis, None)
